@@ -6,15 +6,6 @@ Import ListNotations.
 
 Lemma in_spend u f ids w : In (u, f) (spend ids w) <-> In (u, f) w /\ ~ In (uid u) ids.
 Proof. unfold spend. rewrite filter_In. simpl. rewrite negb_true_iff, mem_id_false. tauto. Qed.
-Lemma NoDup_app_uid {A} (a b : list A) :
-  NoDup a -> NoDup b -> (forall x, In x a -> In x b -> False) -> NoDup (a ++ b).
-Proof.
-  induction a as [|x a IH]; simpl; intros Na Nb H; [assumption|].
-  apply NoDup_cons_iff in Na. destruct Na as [Nx Na]. constructor.
-  - rewrite in_app_iff. intros [H1|H1]; [contradiction | eapply H; eauto].
-  - apply IH; auto. intros y Hy; apply H; right; assumption.
-Qed.
-
 Section Inv.
   Variable n : nat.
   Variable choose : nat -> nat -> list utxo -> list utxo.
@@ -352,3 +343,31 @@ Lemma demo_with_lock :
   let st := run true 2 first_one (fun _ _ _ => false) (fun _ => false) demo_sched (init demo_wallet) in
   held_ids st 0 = [1%N] /\ held_ids st 1 = [] /\ lock st = Some 1%nat.
 Proof. vm_compute. repeat split. Qed.
+
+(* ------------------------------------------------------------------ with the chooser of the real code *)
+Section WithC03.
+  Variable fpb : Z.
+  Variable shuffle : list utxo -> list utxo.
+  Hypothesis shuffle_perm : forall l, Permutation.Permutation l (shuffle l).
+  Hypothesis fpb_nonneg : (0 <= fpb)%Z.
+  Variable strat : nat -> strategy.
+  Variable amount : nat -> nat -> Z.
+
+  Lemma c03_choose_ok b r l :
+    NoDup (map uid l) ->
+    incl (c03_choose fpb shuffle strat amount b r l) l /\ NoDup (map uid (c03_choose fpb shuffle strat amount b r l)).
+  Proof.
+    intro Hl. unfold c03_choose.
+    destruct (choose_from_plain fpb shuffle shuffle_perm fpb_nonneg (strat b) l (amount b r)) as [A [B _]].
+    split; auto.
+  Qed.
+
+  Theorem exclusive_c03 n more finish w0 :
+    NoDup (ids_of w0) -> (forall e, In e w0 -> snd e = false) -> forall sched,
+    let st := run true n (c03_choose fpb shuffle strat amount) more finish sched (init w0) in
+    (forall b1 b2 i, b1 <> b2 -> In i (held_ids st b1) -> In i (held_ids st b2) -> False) /\
+    (forall b, NoDup (held_ids st b)) /\
+    (forall i, In i (reserved_ids (wal st)) <-> exists b, b < n /\ In i (held_ids st b)) /\
+    (forall b u, In u (held (bs st b)) -> ~ In u (unreserved (wal st))).
+  Proof. intros. apply exclusive; try assumption. exact c03_choose_ok. Qed.
+End WithC03.
